@@ -34,7 +34,7 @@ def run(ctx):
         for (nt, it, mode) in tcs: scen.append(('threads nt=%d iters=%d mode=%d' % (nt, it, mode), 'threads %s %d %d %d %d' % (spec, nt, it, mode, ctx.seed + nt)))
         # two harness processes at a time: oversubscription of the 16 cores by the 64-thread scenarios is intended
         with ThreadPoolExecutor(max_workers=2) as ex:
-            outs = list(ex.map(lambda sc: vlib.run_lines(exe, [sc[1]], timeout=3600)[0], scen))
+            outs = list(ex.map(lambda sc: vlib.run_lines(exe, [sc[1]], timeout=1800)[0], scen))
         # history across key sets: the outputs under the key set of the spec do not depend on whether this process and thread used another
         # key set (other dimensions) before
         hh = [vlib.run_lines(exe, ['refhash %s %d %d' % (spec, ctx.seed + 21, pre)], timeout=3600)[0] for pre in (0, 1)]
@@ -45,7 +45,7 @@ def run(ctx):
         # threads come and go, the main thread never runs a transform; freed memory is overwritten (MALLOC_PERTURB_) so that per-thread FFT
         # state another thread still relies on does not survive by luck
         nl = 'nomain %s %d' % (spec, ctx.seed + 23)
-        no = vlib.run_lines(exe, [nl], timeout=3600, env=dict(os.environ, MALLOC_PERTURB_='165'))[0]; ctx.count((be, bu, 'nomain'))
+        no = vlib.run_lines(exe, [nl], timeout=900, env=dict(os.environ, MALLOC_PERTURB_='165'))[0]; ctx.count((be, bu, 'nomain'))
         nv = ints(no) if not no.startswith('CRASH') and no.strip() else None
         if nv is None or nv[0] != 0:
             ctx.report('nondeterministic-thread-lifetimes', '%s/%s: after the set-up thread (key generation, reference outputs) has exited, %s on fresh threads while the main thread never ran a transform' % (
@@ -53,7 +53,7 @@ def run(ctx):
         elif nv: ctx.evaluations += nv[1]
         # objects of the FFT domain handed from the thread that created them to another one (used by one thread at a time; the key only read)
         hl = 'handover %s %d %d %d' % (spec, 4 if not thorough else 8, 6 if not thorough else 12, ctx.seed + 29)
-        ho = vlib.run_lines(exe, [hl], timeout=3600, env=dict(os.environ, MALLOC_PERTURB_='165'))[0]; ctx.count((be, bu, 'handover'))
+        ho = vlib.run_lines(exe, [hl], timeout=900, env=dict(os.environ, MALLOC_PERTURB_='165'))[0]; ctx.count((be, bu, 'handover'))
         hv = ints(ho) if not ho.startswith('CRASH') and ho.strip() else None
         if hv is None or any(hv[:4]):
             what = ('the run died (%s)' % ho[:60]) if hv is None else ('%d transform/product results on temporaries allocated by the main thread, %d conversions of rows of the shared const key, %d gate outputs of the main thread '
@@ -64,7 +64,7 @@ def run(ctx):
         # generations of short-lived threads whose first and only work is an FFT product: per-thread FFT state is created and released by
         # many threads at about the same time (for FFTW also: the planner API, which is not reentrant, must never be entered by two threads)
         cl = 'churn %d %d %d' % (12 if not thorough else 40, 16, ctx.seed + 31)
-        co = vlib.run_lines(exe, [cl], timeout=3600)[0]; ctx.count((be, bu, 'churn'))
+        co = vlib.run_lines(exe, [cl], timeout=600)[0]; ctx.count((be, bu, 'churn'))
         cv = ints(co) if not co.startswith('CRASH') and co.strip() else None
         if cv is None or cv[0] != 0:
             ctx.report('thread-churn', '%s/%s: %s' % (be, bu, ('generations of 16 short-lived threads doing FFT products: the process died (%s)' % co[:60]) if cv is None else
